@@ -99,7 +99,7 @@ func runThresholds(f lib.Flags, res *lib.Result, r *lib.RNG, drv *lib.Driver, on
 	for _, n := range ns {
 		lines = append(lines, "fq "+strconv.FormatUint(n, 10))
 	}
-	outs, err := drv.AskAll(lines)
+	outs, err := askAll(res, f, drv, lines)
 	if err != nil {
 		res.Fatalf("Lean driver failed: %v", err)
 		return
